@@ -255,6 +255,55 @@ pub fn tree_shake(bytecode: Bytecode, entry: usize) -> Bytecode {
         }
     }
 
+    // Keep the type entries that only the runtime compatibility index consults (no instruction
+    // names them): a process value is typed through the `Type::Process` built from its spawning
+    // function's receive/result types, and a builtin value through its never-receiving
+    // `Type::Callable`. Dropping them would make every type test on such a value fail.
+    let index_only: Vec<usize> = bytecode
+        .types
+        .iter()
+        .enumerate()
+        .filter(|(_, ty)| match ty {
+            Type::Process {
+                send: Some(send),
+                receive: Some(receive),
+            } => used_functions.iter().any(|fn_id| {
+                matches!(
+                    bytecode
+                        .functions
+                        .get(*fn_id)
+                        .and_then(|f| bytecode.types.get(f.type_id)),
+                    Some(Type::Callable { result, receive: fn_receive, .. })
+                        if fn_receive == send && result == receive
+                )
+            }),
+            Type::Callable {
+                parameter,
+                result,
+                receive,
+            } => {
+                matches!(bytecode.types.get(*receive), Some(Type::Union(v)) if v.is_empty())
+                    && used_builtins.iter().any(|builtin_id| {
+                        bytecode.builtins.get(*builtin_id).is_some_and(|b| {
+                            b.param_type == *parameter && b.result_type == *result
+                        })
+                    })
+            }
+            _ => false,
+        })
+        .map(|(type_id, _)| type_id)
+        .collect();
+    for type_id in index_only {
+        collect_type_refs(
+            type_id,
+            &bytecode.types,
+            &bytecode.tuples,
+            &mut used_types,
+            &mut used_tuples,
+            &mut used_resources,
+        );
+    }
+
     // Build remap tables
     let mut sorted_functions: Vec<usize> = used_functions.into_iter().collect();
     sorted_functions.sort();
